@@ -252,6 +252,7 @@ pub fn profile_for(id: &str) -> Profile {
                 w.draw = 30;
                 w.save = 6;
                 w.ris = 1;
+                w.raw = 12;
             });
             p.parser_kind = 3;
             p.deccolm = false;
@@ -411,10 +412,16 @@ pub fn spec(id: &str) -> Option<Spec> {
                 "hang detection is by CPU time (RLIMIT_CPU) on a child process; a loop that ends after more than the limit is indistinguishable from a hang",
                 "built with overflow-checks and debug-assertions on",
             ],
-            subs: vec![
-                gen_sub("gen-stream", c01_decode_stream(), Arc::new(|c: &Case| run_c01(c)), (160_000, 6_000_000), 700),
-                gen_sub("gen-api", c01_decode_api(), Arc::new(|c: &Case| run_c01(c)), (160_000, 6_000_000), 700),
-            ],
+            subs: {
+                let run: RunFn = Arc::new(|c: &Case| run_c01(c));
+                let mut a = gen_sub("gen-stream", c01_decode_stream(), run.clone(), (160_000, 6_000_000), 700);
+                let mut b = gen_sub("gen-api", c01_decode_api(), run.clone(), (160_000, 6_000_000), 700);
+                // replays (and crash attribution) run the case alone in a child process, so
+                // that aborts, stack overflows, hangs and deadlocks are verdicts too
+                a.replay = crate::runner::isolated(run.clone());
+                b.replay = crate::runner::isolated(run);
+                vec![a, b]
+            },
         },
         "C02" => Spec {
             id: "C02",
